@@ -222,10 +222,13 @@ func (e *Executor) parseQuery(
 	doc, err := parser.ParseQueryWithTokenLimit(&ast.Source{Input: query}, e.parserTokenLimit)
 	if err != nil {
 		gqlErr, ok := err.(*gqlerror.Error)
-		if ok {
-			errcode.Set(gqlErr, errcode.ParseFailed)
-			return nil, gqlerror.List{gqlErr}
+		if !ok {
+			// not every parser failure is positioned (the token limit is a plain error): it is
+			// still a document that could not be parsed
+			gqlErr = gqlerror.Wrap(err)
 		}
+		errcode.Set(gqlErr, errcode.ParseFailed)
+		return nil, gqlerror.List{gqlErr}
 	}
 	stats.Parsing.End = graphql.Now()
 
